@@ -1,1 +1,143 @@
-From C07 Require Import Model ProofsInv.
+(* C07 — property theorems. Nothing but statements closed by `exact <lemma>`, Print Assumptions beneath each,
+   and the Examples (witness schedules: hypotheses are satisfiable, the three repaired defects stay documented). *)
+From Coq Require Import List Bool Arith NArith.
+From C07 Require Import Model ProofsInv ProofsIdx.
+Import ListNotations.
+
+(* thm:C07_handover_no_gap, part 1 — the proxyFrac automaton. In EVERY state reachable by ANY label list (any
+   number of writers, readers, rotations, seals, deletions, in any interleaving) every fraction is in one of the
+   four states of the table in proxy_frac.go (Active, Sealing, Sealed, Suicided), and `active = nil /\ sealed = nil`
+   only for a fraction retention has removed from the list: a listed fraction always has a data provider. *)
+Theorem C07_handover_four_states :
+  forall c n ls g f,
+    nth_error (fracs (exec c (init c n) ls)) g = Some f ->
+    (state_code f = 0 \/ state_code f = 1 \/ state_code f = 2 \/ state_code f = 3)%N
+    /\ (state_code f = 3%N -> g < shift (exec c (init c n) ls)).
+Proof. exact proxy_four_states. Qed.
+Print Assumptions C07_handover_four_states.
+
+(* thm:C07_handover_no_gap, part 2 — once the seal thread of a fraction is past WaitWriteIdle (so in particular
+   when frac.Seal reads the index and when the sealed fraction replaces the active one) the fraction's index
+   WaitGroup is zero, the fraction is not the current writer, it is not writable, and an Append that had picked it
+   is refused and goes back to FracManager.Writer() (the current writer): no bulk is indexed into a fraction behind
+   the sealer's back, none is dropped. All reachable states, all schedules. *)
+Theorem C07_handover_no_gap :
+  forall c n ls g f,
+    let st := exec c (init c n) ls in
+    nth_error (fracs st) g = Some f ->
+    idle_passed (f_seal f) = true ->
+    f_wg f = 0
+    /\ (f_act f && negb (f_sld f) && negb (f_ro f) = false)%bool
+    /\ g <> last_g st
+    /\ forall w x, nth_error (ws st) w = Some x -> w_pc x = 1 -> w_g x = g ->
+         snd (step_w c st w) = OHook 1 /\
+         nth_error (ws (fst (step_w c st w))) w = Some (mkW (w_cur x) 1 (last_g st) 0 [] 0 [] 0).
+Proof. exact handover_no_gap. Qed.
+Print Assumptions C07_handover_no_gap.
+
+(* thm:C07_reader_safe — PARTIAL. Full statement (not closed in the time box, checked on every replayed schedule by
+   the spec checker CaseDefs.case_spec_ok instead):
+     forall c n ls, grun (c_bulks c) (c_qs c) (ghost0 _) ls (run c (init c n) ls) = true      for c_ver c = all fixes,
+   i.e. every ID a search returns belongs to a submitted bulk of that fraction, lies in the range, satisfies the
+   query; every acknowledged document is visible; a fetch returns exactly the document's bytes, and finds every
+   acknowledged or search-returned document.
+   Proved (all reachable states, all schedules): the index invariants the statement rests on. *)
+
+(* posting ⊆ appended LIDs: every LID in a token's sorted list or queue is below len(MIDs) of its fraction *)
+Theorem C07_reader_safe_postings_within_ids :
+  forall c n ls g f t lid,
+    nth_error (fracs (exec c (init c n) ls)) g = Some f ->
+    In t (f_toks f) -> In lid (tl_sorted t ++ tl_queue t) -> lid < length (f_ids f).
+Proof. exact postings_bounded. Qed.
+Print Assumptions C07_reader_safe_postings_within_ids.
+
+(* the LID universe a reader takes from the `_all_` posting passes the bound check of newInverser against the ID
+   tables as they are at that moment ... *)
+Theorem C07_reader_safe_mapping_within_ids :
+  forall c n ls g f,
+    nth_error (fracs (exec c (init c n) ls)) g = Some f ->
+    forallb (fun lid => Nat.ltb lid (length (f_ids f))) (tl_sorted (merge_tok (get_tok 0%N (f_toks f)))) = true.
+Proof. exact mapping_bounded. Qed.
+Print Assumptions C07_reader_safe_mapping_within_ids.
+
+(* ... and the ID tables only grow with every step of every thread, so the snapshot taken afterwards covers it *)
+Theorem C07_reader_safe_ids_only_grow :
+  forall c n ls l g,
+    let st := exec c (init c n) ls in
+    g < length (fracs st) -> length (f_ids (getf st g)) <= length (f_ids (getf (fst (step c st l)) g)).
+Proof. exact ids_only_grow. Qed.
+Print Assumptions C07_reader_safe_ids_only_grow.
+
+(* the published range [From, To] and DocsTotal only widen with every step of every thread, from ANY state: an ID
+   a search returned (clamped to the range its provider snapshotted) is inside the range every later
+   Contains / IsIntersecting reads, so the fetch is routed to the fraction *)
+Theorem C07_reader_safe_range_only_widens :
+  forall c st l g,
+    g < length (fracs st) ->
+    let f := getf st g in let f' := getf (fst (step c st l)) g in
+    (f_from f' <= f_from f)%N /\ (f_to f <= f_to f')%N /\ f_total f <= f_total f'.
+Proof. exact range_only_widens. Qed.
+Print Assumptions C07_reader_safe_range_only_widens.
+
+(* ------------------------------------------------------------------ witnesses *)
+Local Open Scope N_scope.
+Definition d1 := mkDoc (10, 1) [0; 1] 1.
+Definition d2 := mkDoc (10, 2) [0; 2] 2.
+Definition qs0 : list qspec := [(QTok 1, 0, 1000); (QNot (QTok 2), 0, 1000)].
+Definition v_now := mkVer true true true.
+Definition lw (k : nat) : list label := repeat (LW 0) k.
+Definition last_obs (c : config) (ls : list label) : obs := last (run c (init c 3) ls) OUnit.
+
+(* defect 1 (repaired by a28a3f7): `_all_` queued in TokensValues order. The second bulk's document (token 2) is in the
+   `_all_` posting but not yet in token 2's posting: `not 2` returns it. With the all-token last it does not. *)
+Definition neg_midbulk := lw 11 ++ lw 8 ++ [LSnap 0; LSB 0 0 1; LR 0; LR 0; LR 0; LR 0].
+Example C07_negation_midbulk_v0_refuted :
+  last_obs (mkCfg (mkVer false true true) [[[d1]; [d2]]] qs0) neg_midbulk = ORes [(10, 1); (10, 2)]
+  /\ evald (QNot (QTok 2)) (d_toks d2) = false.
+Proof. split; vm_compute; reflexivity. Qed.
+Example C07_negation_midbulk_now :
+  last_obs (mkCfg v_now [[[d1]; [d2]]] qs0) neg_midbulk = ORes [(10, 1)].
+Proof. vm_compute; reflexivity. Qed.
+
+(* defect 2 (repaired by 5d51c58): the fetch provider's block table is a snapshot, positions are live *)
+Definition fetch_stale := lw 11 ++ [LSnap 0; LFB 0 0 [(10, 2); (10, 1)]] ++ lw 4 ++ [LR 0].
+Example C07_fetch_stale_blocks_v0_refuted :
+  last_obs (mkCfg (mkVer true false true) [[[d1]; [d2]]] qs0) fetch_stale = OErr.
+Proof. vm_compute; reflexivity. Qed.
+Example C07_fetch_stale_blocks_now :
+  last_obs (mkCfg v_now [[[d1]; [d2]]] qs0) fetch_stale = OFetch [None; Some 1].
+Proof. vm_compute; reflexivity. Qed.
+
+(* defect 3 (repaired by 716fc27): a reader's stale list still holds the proxy of a fraction retention deleted *)
+Definition sui_proxy := lw 11 ++ [LRot; LSnap 0; LSui; LSB 0 0 0].
+Example C07_suicided_proxy_v0_refuted :
+  last_obs (mkCfg (mkVer true true false) [[[d1]]] qs0) sui_proxy = OErr.
+Proof. vm_compute; reflexivity. Qed.
+Example C07_suicided_proxy_now :
+  last_obs (mkCfg v_now [[[d1]]] qs0) sui_proxy = ORes [].
+Proof. vm_compute; reflexivity. Qed.
+
+(* non-vacuity of C07_handover_no_gap: a schedule in which a writer has picked fraction 0, the seal of fraction 0 is
+   past WaitWriteIdle, and the writer's Append is refused and re-routed to fraction 1 *)
+Example C07_handover_nonvacuous :
+  let c := mkCfg v_now [[[d1]]; [[d2]]] qs0 in
+  let st := exec c (init c 3) (lw 11 ++ [LW 1; LRot; LM 0; LM 0]) in
+  (exists f, nth_error (fracs st) 0 = Some f /\ idle_passed (f_seal f) = true /\ state_code f = 1)
+  /\ (exists x, nth_error (ws st) 1 = Some x /\ w_pc x = 1%nat /\ w_g x = 0%nat)
+  /\ snd (step_w c st 1) = OHook 1.
+Proof.
+  split; [|split].
+  - eexists; split; [vm_compute; reflexivity|]. split; vm_compute; reflexivity.
+  - eexists; split; [vm_compute; reflexivity|]. split; vm_compute; reflexivity.
+  - vm_compute; reflexivity.
+Qed.
+
+(* non-vacuity of the index invariants: a state with a non-empty queue, a non-empty sorted list and two writers *)
+Example C07_index_nonvacuous :
+  let c := mkCfg v_now [[[d1]]; [[d2]]] qs0 in
+  let st := exec c (init c 3) (lw 11 ++ [LSnap 0; LSB 0 0 0; LR 0] ++ repeat (LW 1) 9) in
+  exists f t, nth_error (fracs st) 0 = Some f /\ In t (f_toks f) /\ tl_sorted t = [1%nat] /\ tl_queue t = [2%nat]
+              /\ length (f_ids f) = 3%nat.
+Proof.
+  eexists; eexists. split; [vm_compute; reflexivity|]. split; [left; reflexivity|]. vm_compute. repeat split.
+Qed.
